@@ -327,6 +327,7 @@ namespace ratio
                             throw inconsistency_exception();
                         else // we inhibit the not allowed values..
                             scp.get_core().assert_facts(not_alwd_vals);
+                        assgnments.emplace(id_tkn.id, e); // .. and the narrowed variable is the argument
                     }
                     else // the evaluated expression is a constant which cannot be assigned to the target type (which is a subclass of the type of the evaluated expression)..
                         throw inconsistency_exception();
